@@ -52,14 +52,12 @@ def distance(bw, metric='euclidean2'):
     '''
     if bw.dtype != np.bool_:
         bw = (bw != 0)
+    if bw.ndim == 0:
+        raise ValueError('mahotas.distance: input must have at least one dimension')
     f = np.zeros(bw.shape, np.double)
-    if bw.ndim > 0:
+    if f.size > 0:
         f[bw] = len(f.shape)*max(f.shape)**2+1
         _distance.dt(f, None)
-    else:
-        f.fill(f.size*2)
-        Bc = np.ones([3 for _ in bw.shape], bool)
-        _morph.distance_multi(f, bw, Bc)
     if metric == 'euclidean':
         np.sqrt(f,f)
     return f
